@@ -115,6 +115,32 @@ for n in range(1, nmax + 1):
                                     problems.append({'case': dict(case, altered=[i, int(newv)]), 'what': f'changing Y[{i}] (outside the sampled rows {idx}) changed the score {res[0]!r} -> {s2!r}', 'kind': 'not_sample_only'})
                     if len(problems) > 200:
                         break
+# larger, structured vectors (n >= 16): sorting-based groupings behave differently from the hand-sized cases
+from mc.checks.c04 import large_vectors  # noqa: E402
+for tx_ in large_vectors():
+    lab = {v: i for i, v in enumerate(sorted(set(tx_)))}
+    tx = tuple(lab[v] for v in tx_)
+    n = len(tx)
+    ax = np.array(tx, dtype=np.int32)
+    vals, cnts = nu(ax)
+    for ty in (tuple(range(n)), tuple((i * 5 + i // 4) % 4 for i in range(n))):
+        ay = np.array(ty, dtype=np.int32)
+        for r in RATIOS:
+            quota = int(math.floor(r * n))
+            idx = refs.sample_indices(tx, quota)
+            case = {'Y': ty, 'X': tx, 'r': r, 'c': False, 'fill': fill_arg}
+            note(case)
+            if fill is not None and quota > 0:
+                groom(quota, fill, 3)
+            res = [float(f(ay, ax, np.float32(r), False)) for _ in range(2)]
+            n_cases += 1
+            scores.append(res[0])
+            if res[0] != res[1] or not math.isfinite(res[0]):
+                problems.append({'case': case, 'what': f'scores {res}', 'kind': 'nondeterministic'})
+            ii = np.arange(n) if idx is None else np.array(idx, dtype=np.int64)
+            exp = float(np.float32(r) * ce(ax[ii], ay[ii], n, vals, cnts, False))
+            if not (abs(res[0] - exp) <= 1e-6 + 1e-6 * abs(exp)):
+                problems.append({'case': case, 'what': f'n={n}: score {res[0]!r} != r * entropies on the reference sample {exp!r}', 'kind': 'sample_value'})
 note({'done': True})
 np.save(outfile + '.npy', np.array(scores, dtype=np.float64))
 json.dump({'cases': n_cases, 'sample_only_checks': n_sample_only, 'problems': problems[:200], 'groom_hits': hits, 'groom_total': tot}, open(outfile + '.json', 'w'))
